@@ -156,6 +156,8 @@ func (c *CodeStore) GetCodeCount() int {
 
 // DeleteByBookingID uses the booking ID to delete a store entry
 func (c *CodeStore) DeleteByBookingID(bid string) {
+	c.Lock()
+	defer c.Unlock()
 
 	stale := []string{}
 
